@@ -5,8 +5,9 @@
 (* HashPrim.java (TLC module override, class HashPrim next to this file).  *)
 (* The TLA+ bodies below only state the TYPE of the result, so that SANY   *)
 (* and readers see an ordinary definition; TLC never evaluates them.       *)
-(* A pure TLA+ definition of SHA-256 is given in Sha256Pure.tla and        *)
-(* checked against the override by MC_Prim.                                *)
+(* Pure TLA+ definitions of both hash functions are given in               *)
+(* Sha256Pure.tla and KeccakPure.tla and checked against the overrides by  *)
+(* MC_PrimPure (and both against python hashlib by MC_Prim).               *)
 (***************************************************************************)
 EXTENDS Naturals, Sequences
 
